@@ -87,9 +87,23 @@ def probe_disagreement(ctx, stage, case):
         r = _oracle((case['uri'], case['root'], case['prefix'], case['text']))
         if r[0] == 'bad': ctx.failures.append((dict(case, stage='e2e', exception=r[1]), 'conversion raised %s' % r[1]))
 
+def _has_illegal_attr_name(case):
+    """does the parser's own dict tree for this text carry an attribute (or class-derived) name that lxml itself refuses?"""
+    from lxml import etree
+    try:
+        d = impl.parser().parse(case['text'], case['root']).to_dict()
+    except Exception:
+        return True
+    def walk(n):
+        for k in (n.get('attribs') or {}):
+            try: etree.Element('x').set(k, 'v')
+            except ValueError: return True
+        return any(walk(k) for key in ('heading', 'subheading', 'from', 'children') for k in (n.get(key) or []) if isinstance(k, dict))
+    return walk(d)
+
 CLASSIFIERS = {
     'illegal_xml_character': lambda c, d: c.get('exception') in ('XmlChar', 'ParseError', 'XmlName') and any(not legal_char(ch) for ch in c['text']),
-    'illegal_attribute_name': lambda c, d: c.get('exception') == 'XmlName' and '{' in c['text'],
+    'illegal_attribute_name': lambda c, d: c.get('exception') == 'XmlName' and '{' in c['text'] and _has_illegal_attr_name(c),
     'attachment_keyword_with_junk': lambda c, d: c.get('exception') == 'ParseError' and depth0_attachment_junk(c['text']),
 }
 
